@@ -161,23 +161,33 @@ def rule_shift_base(eng, rep, rule="C01-5.relative-bounds-follow-the-base-point"
     # affine invariants of shift_base
     se = affine.SymExec(linear_ops={"%s.model_jac" % selfn: "J"})
     try:
-        st = se.run(sb.node.body)
+        paths = se.run_paths(sb.node.body)
     except AnalysisError as ex:
         rep.unknown(rule, eng.where(sb), str(ex))
         return
-    X0 = affine.sym("%s.xbase" % selfn)
-    X1 = st.get("%s.xbase" % selfn, X0)
     checks = [("sl + xbase", "%s.sl" % selfn), ("su + xbase", "%s.su" % selfn), ("points[k] + xbase", "%s.points[*]" % selfn)]
+    X0 = affine.sym("%s.xbase" % selfn)
+    # every path through the method's `if` statements (tests not interpreted): holds on all -> discharged, fails on all -> violation, mixed -> undecided
     for (txt, key) in checks:
-        before = affine.add(affine.sym(key), X0)
-        after = affine.add(st.get(key, affine.sym(key)), X1)
-        if before == after:
-            rep.ok(rule, eng.where(sb), "%s is unchanged by shift_base (%s)" % (txt, affine.fmt(after)))
-        else:
+        res = []
+        for pse in paths:
+            st = pse.state
+            X1 = st.get("%s.xbase" % selfn, X0)
+            before = affine.add(affine.sym(key), X0)
+            after = affine.add(st.get(key, affine.sym(key)), X1)
+            res.append((before == after, affine.fmt(before), affine.fmt(after)))
+        if all(r[0] for r in res):
+            rep.ok(rule, eng.where(sb), "%s is unchanged by shift_base (%s)" % (txt, res[0][2]))
+        elif not any(r[0] for r in res):
             rep.bad(rule, eng.where(sb), "model.Model.shift_base|invariant|%s" % txt,
-                    "%s changes under shift_base: before %s, after %s" % (txt, affine.fmt(before), affine.fmt(after)))
-    if X1 == X0:
+                    "%s changes under shift_base: before %s, after %s" % (txt, res[0][1], res[0][2]))
+        else:
+            b = [r for r in res if not r[0]][0]
+            rep.unknown(rule, eng.where(sb), "%s is preserved on some paths through shift_base and changes on others (before %s, after %s): the tests are not interpreted" % (txt, b[1], b[2]))
+    moved = [pse.state.get("%s.xbase" % selfn, X0) != X0 for pse in paths]
+    if not any(moved):
         rep.bad(rule, eng.where(sb), "model.Model.shift_base|xbase-not-moved", "shift_base does not move xbase")
+    st, se = paths[-1].state, paths[-1]
     return st, se
 
 
